@@ -92,13 +92,19 @@ unmangle!(
         let out_size = *out_buf_size + next_pos;
         let r_ref = r.as_mut().expect("bad decompressor pointer");
         if let Some(decompressor) = r_ref.inner.as_mut() {
-            let (status, in_consumed, out_consumed) = decompress(
-                decompressor.as_mut(),
-                slice::from_raw_parts(in_buf, *in_buf_size),
-                slice::from_raw_parts_mut(out_buf_start, out_size),
-                next_pos,
-                flags,
-            );
+            // Null buffers are fine when their length is zero, but must not be turned into slices.
+            let in_slice = if *in_buf_size == 0 {
+                &[]
+            } else {
+                slice::from_raw_parts(in_buf, *in_buf_size)
+            };
+            let out_slice = if out_size == 0 {
+                &mut []
+            } else {
+                slice::from_raw_parts_mut(out_buf_start, out_size)
+            };
+            let (status, in_consumed, out_consumed) =
+                decompress(decompressor.as_mut(), in_slice, out_slice, next_pos, flags);
 
             *in_buf_size = in_consumed;
             *out_buf_size = out_consumed;
@@ -118,10 +124,22 @@ unmangle!(
         let flags = flags as u32;
         let mut decomp = Box::<DecompressorOxide>::default();
 
+        // Null buffers are fine when their length is zero, but must not be turned into slices.
+        let in_slice = if src_buf_len == 0 {
+            &[]
+        } else {
+            slice::from_raw_parts(p_src_buf as *const u8, src_buf_len)
+        };
+        let out_slice = if out_buf_len == 0 {
+            &mut []
+        } else {
+            slice::from_raw_parts_mut(p_out_buf as *mut u8, out_buf_len)
+        };
+
         let (status, _, out_consumed) = decompress(
             &mut decomp,
-            slice::from_raw_parts(p_src_buf as *const u8, src_buf_len),
-            slice::from_raw_parts_mut(p_out_buf as *mut u8, out_buf_len),
+            in_slice,
+            out_slice,
             0,
             (flags & !inflate_flags::TINFL_FLAG_HAS_MORE_INPUT)
                 | inflate_flags::TINFL_FLAG_USING_NON_WRAPPING_OUTPUT_BUF,
@@ -162,12 +180,18 @@ unmangle!(
         // How far into the source buffer we have read.
         let mut src_buf_ofs = 0;
         loop {
-            let (status, in_consumed, out_consumed) = decompress(
-                &mut decomp,
+            // A null source buffer is fine when its length is zero, but must not be turned into a slice.
+            let in_slice = if src_buf_len - src_buf_ofs == 0 {
+                &[]
+            } else {
                 slice::from_raw_parts(
                     p_src_buf.add(src_buf_ofs) as *const u8,
                     src_buf_len - src_buf_ofs,
-                ),
+                )
+            };
+            let (status, in_consumed, out_consumed) = decompress(
+                &mut decomp,
+                in_slice,
                 slice::from_raw_parts_mut(p_buf as *mut u8, out_buf_capacity),
                 *p_out_len,
                 (flags & !inflate_flags::TINFL_FLAG_HAS_MORE_INPUT)
